@@ -392,3 +392,56 @@ Proof.
     + rewrite (CROH _ _ Hj). eauto.
   - intros j w [H|H]; [discriminate|eauto].
 Qed.
+
+(* -- the next consumer call ------------------------------------------------------------------- *)
+Lemma inv_call nr mutc c0 m : Inv nr mutc c0 m -> Inv nr mutc c0 (mstep nr m LCall).
+Proof.
+  intros I. cbn [mstep]. destruct (todo m) as [|sp rest] eqn:T; [exact I|].
+  destruct (i_shape _ _ _ _ I) as [[NH (M & R & ET & LR)]|(R' & ET & C)].
+  - rewrite T in ET. symmetry in ET.
+    destruct (shape_head _ _ _ _ ET) as [(i & M' & -> & NE & -> & ->)|[(i & -> & -> & ->)|(i & R1 & -> & -> & -> & ->)]].
+    + (* clone for a mutating consumer that is not the last one *)
+      cbn [exec_step clone].
+      apply (inv_call_clone nr mutc c0 m (SClone i) _ I T eq_refl NH). eauto.
+    + (* the last mutating consumer *)
+      cbn [exec_step clone].
+      destruct ((nr =? 0) && negb (is_ro (st m) 0)) eqn:E.
+      * apply andb_true_iff in E. destruct E as [E1 E2]. apply Nat.eqb_eq in E1. apply negb_true_iff in E2.
+        assert (R = []) by (destruct R; simpl in *; auto; lia). subst R. cbn [ro_steps] in *.
+        apply (inv_call_orig nr mutc c0 m (SLast i) [] false I T).
+        -- discriminate.
+        -- intros [j Hj]. exfalso. eapply NH; eauto.
+        -- intros _. auto.
+        -- exists []. split; [reflexivity|]. intros F. now elim F.
+      * apply (inv_call_clone nr mutc c0 m (SLast i) _ I T eq_refl NH). exists [], R. auto.
+    + (* the first read-only consumer; the payload is marked when it will be shared *)
+      cbn [exec_step]. cbn [app mut_steps ro_steps] in *.
+      set (mark := (1 <? nr) && negb (is_ro (st m) 0)).
+      replace (if mark then mark_ro (st m) 0 else st m) with (if mark then mark_ro (st m) 0 else st m) by auto.
+      apply (inv_call_orig nr mutc c0 m (SFirstRO i) (map SOrig R1) mark I T).
+      * intros _. exact NH.
+      * intros [j Hj]. exfalso. eapply NH; eauto.
+      * discriminate.
+      * exists R1. split; auto. intros NE.
+        assert (L1 : (1 <? nr) = true).
+        { apply Nat.ltb_lt. rewrite <- LR. destruct R1; [congruence|]. simpl. lia. }
+        unfold mark. rewrite L1. cbn [andb]. unfold is_ro.
+        destruct (cro (get (st m) 0)) eqn:E; cbn [negb]; auto.
+        apply cro_mark_ro_same. eapply i_len; eauto.
+  - (* remaining read-only consumers (or the unwrapped single one) *)
+    rewrite T in ET. destruct R' as [|i R1]; [discriminate|]. cbn [map] in ET. injection ET as -> ->.
+    cbn [exec_step].
+    assert (NE : i :: R1 <> []) by discriminate. specialize (C NE).
+    apply (inv_call_orig nr mutc c0 m (SOrig i) (map SOrig R1) false I T).
+    + discriminate.
+    + intros [j Hj]. split; auto. destruct C as [C|[NH _]]; auto. exfalso. eapply NH; eauto.
+    + discriminate.
+    + exists R1. split; auto. intros NE1. destruct C as [C|[_ L1]]; auto.
+      destruct R1; [congruence|]. simpl in L1. lia.
+Qed.
+
+Lemma inv_step nr mutc c0 m l : Inv nr mutc c0 m -> Inv nr mutc c0 (mstep nr m l).
+Proof. destruct l; [apply inv_call|apply inv_write]. Qed.
+
+Lemma inv_fold nr mutc c0 ls : forall m, Inv nr mutc c0 m -> Inv nr mutc c0 (fold_left (mstep nr) ls m).
+Proof. induction ls as [|l ls IH]; simpl; auto. intros m I. apply IH. now apply inv_step. Qed.
